@@ -71,3 +71,8 @@ Proof. reflexivity. Qed.
 Lemma gen_replay_ids_like_live : gen_replay_registers_like_put_durable = true.
 Proof. reflexivity. Qed.
 
+(* concurrent first puts of different embedding keys never share a slab slot: the slot number comes from
+   one atomic read-modify-write of the write position *)
+Lemma gen_slot_alloc_atomic : gen_slot_alloc_fetch_add = true.
+Proof. reflexivity. Qed.
+
